@@ -864,6 +864,18 @@ Definition snapshot_entity (s : W) (e : ent) : option (list Z) :=
   | _ => None
   end.
 
+(** The whole world as a callback sees it through a full Filter0 query: every listed row in iteration order
+    (archetypes, their active tables, rows), as entity followed by its snapshot. With it the log shows whether
+    OTHER entities - in particular other members of a running batch - are already changed when a callback runs. *)
+Definition world_view (s : W) : list Z :=
+  flat_map (fun a =>
+    flat_map (fun tid =>
+      match nth_error (w_tables s) tid with
+      | Some t => flat_map (fun row => Zent (nth row (t_ents t) zero_ent) ++ (Zn (length (t_ids t)) :: snapshot_row t row))
+                           (seq 0 (t_len t))
+      | None => []
+      end) (a_tables a)) (w_archs s).
+
 Definition log (l : list Z) : MW unit := modify (fun s => s <| w_log ::= fun lg => lg ++ [l] |>).
 
 Definition run_callback (oi : nat) (e : ent) : MW unit :=
@@ -875,7 +887,7 @@ Definition run_callback (oi : nat) (e : ent) : MW unit :=
   let cnt := count_in_world s1 e in
   unlockM b ;;;
   snap <- (if al then of_opt (snapshot_entity s e) EIndex else ret []) ;;
-  log ([100%Z; Zn oi] ++ Zent e ++ [Zb locked; Zb al; Zn cnt] ++ snap) ;;;
+  log ([100%Z; Zn oi] ++ Zent e ++ [Zb locked; Zb al; Zn cnt] ++ snap ++ world_view s1) ;;;
   o <- getO oi ;;
   match o_cb o with
   | 0 => ret tt
@@ -1477,36 +1489,60 @@ Definition w_exchange_batch (fi : nat) (brels : list rel) (add rem : list nat) (
   unlockM l.
 
 (** setRelationsTable (as repaired: OnAddRelations entities are read from the new table). *)
-Definition set_relations_table (otid old_len : nat) (rels : list rel) : MW unit :=
+(** setRelationsBatch (since fix "relation batches fire all removal events before and all add events after the
+    entire batch"): PLAN every non-empty table that changes (new target list, changed-relations mask, destination
+    found or created) before anything moves; then all OnRemoveRelations events, then all moves with the batch
+    callbacks, then all OnAddRelations events. A rejected table rejects the whole batch before any row moved. *)
+Definition set_relations_plan (otid : nat) (rels : list rel) : MW (option (nat * nat * nat * mask)) :=
   ot <- getT otid ;;
+  if Nat.eqb (t_len ot) 0 then ret None else
   r <- exchange_targets ot rels ;;
   match r with
-  | None => ret tt
+  | None => ret None
   | Some (newrels, cm) =>
       ntid <- get_or_create_table (t_arch ot) newrels ;;
-      nm <- arch_mask_of_table ntid ;;
-      s <- get ;;
-      whenM (has_obs s EvRemoveRelations) (
-        ot <- getT otid ;;
-        fire_rows (fun e eo => fire_set EvRemoveRelations e cm nm eo) (firstn (t_len ot) (t_ents ot)) true) ;;;
-      nt <- getT ntid ;;
-      let start := t_len nt in
-      move_entities otid ntid old_len ;;;
-      forM_ (seq start old_len) (fun i => batch_callback ntid [] i) ;;;
-      s <- get ;;
-      whenM (has_obs s EvAddRelations) (
-        es <- rows_of ntid start old_len ;;
-        fire_rows (fun e eo => fire_set EvAddRelations e cm nm eo) es true)
+      ret (Some (otid, ntid, t_len ot, cm))
   end.
+
+Definition opt_list {A} (l : list (option A)) : list A :=
+  flat_map (fun o => match o with Some a => [a] | None => [] end) l.
+
+Definition set_relations_fire_removes (plans : list (nat * nat * nat * mask)) : MW unit :=
+  forM_ plans (fun p =>
+    let '(otid, ntid, len, cm) := p in
+    ot <- getT otid ;;
+    nm <- arch_mask_of_table ntid ;;
+    fire_rows (fun e eo => fire_set EvRemoveRelations e cm nm eo) (firstn len (t_ents ot)) true).
+
+Definition set_relations_move (p : nat * nat * nat * mask) : MW (nat * nat * nat * mask) :=
+  let '(otid, ntid, len, cm) := p in
+  nt <- getT ntid ;;
+  let start := t_len nt in
+  move_entities otid ntid len ;;;
+  forM_ (seq start len) (fun i => batch_callback ntid [] i) ;;;
+  ret (ntid, start, len, cm).
+
+Definition set_relations_fire_adds (moved : list (nat * nat * nat * mask)) : MW unit :=
+  forM_ moved (fun m =>
+    let '(ntid, start, len, cm) := m in
+    nm <- arch_mask_of_table ntid ;;
+    es <- rows_of ntid start len ;;
+    fire_rows (fun e eo => fire_set EvAddRelations e cm nm eo) es true).
 
 Definition w_set_relations_batch (fi : nat) (brels : list rel) (rels : list rel) : MW unit :=
   check_locked ;;;
   guard (negb (is_nil rels)) ENoComps ;;;
   l <- lockM ;;
   with_deferred_unlock l (
+    s0 <- get ;;
+    let has_rem := has_obs s0 EvRemoveRelations in
+    let has_add := has_obs s0 EvAddRelations in
     tables <- get_batch_tables fi brels ;;
-    lens <- mapM tables (fun tid => t <- getT tid ;; ret (tid, t_len t)) ;;
-    forM_ lens (fun tl => if Nat.eqb (snd tl) 0 then ret tt else set_relations_table (fst tl) (snd tl) rels) ;;;
+    plans <- mapM tables (fun tid => set_relations_plan tid rels) ;;
+    let plans := opt_list plans in
+    whenM has_rem (set_relations_fire_removes plans) ;;;
+    moved <- mapM plans set_relations_move ;;
+    whenM has_add (set_relations_fire_adds moved) ;;;
     register_targets rels) ;;;
   unlockM l.
 
